@@ -28,8 +28,11 @@ class Heartbeat(core.Scenario):
         p = self.params
         self.iv, self.to, self.grace = p['grid']
         iv = (self.iv, self.grace) if self.grace else self.iv
+        extra = {}
+        if p.get('trace') and p['impl'] == 'sync':
+            extra['trace_funcs'] = p['trace']       # line-granular preemption inside the heartbeat task
         w = self.world = peer.make_world(p['impl'], server_kwargs=dict(
-            ping_interval=iv, ping_timeout=self.to, monitor_clients=p['monitor'], async_handlers=False))
+            ping_interval=iv, ping_timeout=self.to, monitor_clients=p['monitor'], async_handlers=False), **extra)
         self.delays = [delay_menu(self.to)[d] for d in p['delays']]
         self.mode = p['mode']
         self.ws = None
@@ -225,7 +228,21 @@ def run(ctx):
     rep = report.Report('C07', 'model_checking')
     bound = 1
     params = param_list(ctx)
+    if not ctx.quick:
+        params = [dict(q, _free_switch=True) for q in params]
     st, viols, samples, gate = core.run_search(Heartbeat, params, bound, ctx.workers, ctx.seed)
+    # two deviations (a preempted heartbeat thread plus an early PONG) on a sharp subset: threaded server,
+    # punctual peer answering at once, interval > timeout, monitoring on
+    deep = [{'impl': impl, 'grid': list(g), 'transport': tr, 'delays': ['zero'], 'mode': mode, 'monitor': True, 'send_at': s_at}
+            for impl in (('sync',) if ctx.quick else ('sync', 'async'))
+            for g in ((2.0, 0.5, 0), (2.0, 1.0, 0))
+            for tr in ('polling', 'websocket') for mode in ('mute',)
+            for s_at in (None, g[0] + g[1] + 0.25)]
+    deep += [dict(q, trace=['_send_ping']) for q in deep if q['impl'] == 'sync']
+    deep = [dict(q, _free_switch=True) for q in deep]
+    st2, viols2, samples2, gate2 = core.run_search(Heartbeat, deep, 2, ctx.workers, ctx.seed)
+    st.merge(st2)
+    viols += viols2
     for v in viols:
         pr = v['params']
         rep.add(report.Violation(
@@ -242,7 +259,7 @@ def run(ctx):
                 'lattice x {Server, AsyncServer}; the client is a reactive automaton; every same-instant ordering of environment actions '
                 'and every schedule with <= %d deviation (environment action before a same-instant library timer, preemption). '
                 'states = distinct (scenario, PING instants, PONG instants, disconnect time+reason) digests.' % (grid_repr(ctx), bound),
-        'exhaustive': True, 'bound_completed': bound, 'caps_hit': st.caps, 'scenarios': len(params),
+        'exhaustive': True, 'bound_completed': bound, 'bound_on_sharp_subset': 2, 'caps_hit': st.caps, 'scenarios': len(params) + len(deep),
         'executions_by_deviations': {str(k): v for k, v in sorted(st.by_dev.items())},
         'max_decision_points': st.max_points, 'determinism_gate': gate,
     }
